@@ -504,6 +504,106 @@ def footprint_params(R: Run, geom, GeoBox, GeoboxTiles, Affine):
                sig=f"fpp|{'buffered' if buffer else 'plain'}|{'mirrored' if W.a < 0 or W.e > 0 else 'north-up'}")
 
 
+def cross_pipeline(R: Run, geom, GeoBox, GeoboxTiles, Affine):
+    """Intercept-free tie of the different-CRS branch of grid_intersect:
+    (1) the public footprint(4326, 2) of each raster equals the geometry built from the MODEL's numbers (footprintParams:
+        pad = 2 px of the coarser axis, densification = longer side / 100) with shapely's buffer and odc's to_crs;
+    (2) grid_intersect(src) equals the composition of public calls the model prescribes: both padded footprints, `&`,
+        the early {} for an empty intersection, to_crs into the destination CRS, tiles(), src.tiles(tile extent) - on
+        overlapping and on really disjoint cross-CRS pairs;
+    (3) the bounding-box contract of a non-linear base: the extent of a GCPGeoBox contains the world image of every
+        boundary pixel corner."""
+    from .common import run_driver
+
+    rng = R.rng
+    base = GeoBox((40, 48), Affine(100, 0, 500000, 0, -100, 6000000), "EPSG:32633")
+
+    def over(crs, res, shrink, flip=False):
+        """a raster in another CRS that overlaps `base` (bounding box of its reprojected extent, shrunk and shifted)"""
+        bb = base.extent.to_crs(crs).boundingbox
+        w, h = bb.span_x * shrink, bb.span_y * shrink
+        x0, y1 = bb.left + bb.span_x * rng.uniform(0, 0.4), bb.top - bb.span_y * rng.uniform(0, 0.4)
+        nx_, ny_ = max(2, int(w / res)), max(2, int(h / res))
+        A_ = Affine(res, 0, x0, 0, -res, y1)
+        if flip:
+            A_ = Affine(-res, 0, x0 + nx_ * res, 0, -res, y1)
+        return (crs, A_, (ny_, nx_))
+
+    specs = [("EPSG:32633", base.affine, (40, 48)),
+             ("EPSG:32633", Affine(250, 0, 499000, 0, 250, 5995000), (24, 30)),      # south-up, overlapping
+             over("EPSG:3857", 200, 0.7), over("EPSG:3857", 400, 0.8, flip=True), over("EPSG:3035", 150, 0.6),
+             over("EPSG:4326", 0.002, 0.7),
+             ("EPSG:32755", Affine(100, 0, 500000, 0, -100, 5300000), (40, 40)),     # Tasmania: disjoint from the others
+             ("EPSG:5070", Affine(1000, 0, 0, 0, -1000, 1900000), (30, 40))]         # USA: disjoint
+    rasters = []
+    for crs, A, (ny, nx) in specs:
+        gb = GeoBox((ny, nx), A, crs)
+        tile = (max(1, ny // rng.randint(2, 4)), max(1, nx // rng.randint(2, 4)))
+        rasters.append((crs, A, (ny, nx), tile, gb, GeoboxTiles(gb, tile)))
+    lines = [f"c12 fpp {tgb_tok(crs, True, A, ('r', (ny, t[0]), (nx, t[1])))} 2 100" for crs, A, (ny, nx), t, _g, _t in rasters]
+    try:
+        outs = run_driver("C12", lines)
+    except Exception as e:  # pylint: disable=broad-except
+        R.notes.append(f"cross_pipeline: driver not available ({e!r})")
+        return
+    fps = []
+    for (crs, A, shape, tile, gb, gbt), out in zip(rasters, outs):
+        dist, res = (float(Fraction(v)) for v in out.split(" "))
+        case = {"crs": crs, "A": aff_s(A), "shape": list(shape), "model": out}
+
+        def built():
+            return gb.extent.buffer(dist).to_crs(4326, resolution=res).dropna()
+
+        real = guarded(lambda: gb.footprint(4326, 2))
+        want = guarded(built)
+        ok = not isinstance(real, str) and not isinstance(want, str) and real.geom.equals_exact(want.geom, 0)
+        R.oracle(ok, "footprint-ne-model-params", case,
+                 f"footprint(4326, 2) is not extent.buffer({dist}).to_crs(4326, resolution={res}).dropna()", sig="xpipe|footprint")
+        fps.append(real)
+    for i, j in itertools.permutations(range(len(rasters)), 2):
+        (dcrs, dA, dshape, dtile, dgb, dst), (scrs, sA, sshape, stile, sgb, src) = rasters[i], rasters[j]
+        if dcrs == scrs:
+            continue
+        case = {"dst": dcrs, "src": scrs, "dst_aff": aff_s(dA), "src_aff": aff_s(sA), "dst_tile": list(dtile), "src_tile": list(stile)}
+
+        def public_pipeline():
+            fp = fps[j] & fps[i]
+            if fp.is_empty:
+                return {}
+            fp = fp.to_crs(dgb.crs)
+            return {idx: list(src.tiles(dst[idx].extent)) for idx in dst.tiles(fp)}
+
+        want = guarded(lambda: deps_s(public_pipeline()))
+        got = guarded(lambda: deps_s(dst.grid_intersect(src)))
+        apart = not isinstance(fps[i], str) and not isinstance(fps[j], str) and (fps[j] & fps[i]).is_empty
+        R.oracle(got == want and not got.startswith("ERR:"), "grid-intersect-ne-public-pipeline", case,
+                 f"grid_intersect gives {got[:200]}, the public pipeline {want[:200]}", sig=f"xpipe|{'apart' if apart else 'overlap'}")
+        if apart:
+            R.oracle(got == "[]", "grid-intersect-disjoint-not-empty", case, got[:200], sig="xpipe|early-empty")
+    # (3) non-linear base
+    try:
+        from odc.geo.gcp import GCPGeoBox, GCPMapping
+    except Exception:  # pylint: disable=broad-except
+        return
+    import shapely.geometry as sg
+
+    for _ in range(R.pick(4, 20)):
+        ny, nx = rng.randint(6, 14), rng.randint(6, 14)
+        A = Affine(2, rng.choice([0, 0.5]), 100 + rng.randint(0, 8), rng.choice([0, -0.25]), -2, 200 + rng.randint(0, 8))
+        pix = np.array([(x, y) for x in (0, nx / 2, nx) for y in (0, ny / 2, ny)], dtype=float)
+        wld = np.array([A * (x, y) for x, y in pix])
+        gg = guarded(lambda: GCPGeoBox((ny, nx), GCPMapping(pix, wld, "EPSG:3857")))
+        if isinstance(gg, str):
+            R.oracle(False, "grid-intersect-raises", {"gcp": True}, gg, sig="xpipe|gcp-raises")
+            continue
+        bb = gg.extent.boundingbox
+        box = sg.box(bb.left, bb.bottom, bb.right, bb.top).buffer(1e-6)
+        corners = [(x, y) for x in range(nx + 1) for y in (0, ny)] + [(x, y) for y in range(ny + 1) for x in (0, nx)]
+        out = [c for c in corners if not box.contains(sg.Point(*gg.pix2wld(*c)))]
+        R.oracle(not out, "gcp-extent-misses-boundary", {"shape": [ny, nx], "A": aff_s(A)},
+                 f"boundary pixel corners outside the extent's bounding box: {out[:5]}", sig="xpipe|gcp-bbox")
+
+
 def gi_stream(R: Run, geom, GeoBox, GeoboxTiles, Affine):
     spec_validation(R)
     extents(R, GeoBox, GeoboxTiles, Affine)
@@ -511,6 +611,7 @@ def gi_stream(R: Run, geom, GeoBox, GeoboxTiles, Affine):
     tiles_public(R, geom, GeoBox, GeoboxTiles, Affine)
     shape_queries(R, geom, GeoBox, GeoboxTiles, Affine)
     footprint_params(R, geom, GeoBox, GeoboxTiles, Affine)
+    cross_pipeline(R, geom, GeoBox, GeoboxTiles, Affine)
     R.assumptions.append("Spec/ConvexDisjoint (separating-axis test) == shapely `disjoint` on convex quadrilaterals with "
                          "positive area: validated on every run (op cvx) and, implicitly, by every same-CRS gi / tq case")
 
